@@ -241,6 +241,10 @@ where
                     file.lock_write().await.map_err(|e| e.error)?;
                 guard.inner_mut().set_len(length).await?;
 
+                // Records were collected iterating backwards,
+                // return them in the order they were appended
+                // so they can be applied again to revert
+                records.reverse();
                 return Ok(records);
             }
 
